@@ -297,7 +297,7 @@ func (p *Proxy) accept(n *com.Packet) bool {
 	}
 	p.lock.RLock()
 	c, ok := p.clients[n.Device.Hash()]
-	if p.lock.RUnlock(); !ok {
+	if p.lock.RUnlock(); !ok || c.ID != n.Device {
 		return false
 	}
 	if isPacketNoP(n) {
@@ -465,7 +465,13 @@ func (p *Proxy) talk(a string, n *com.Packet) (*conn, bool, error) {
 		i     = n.Device.Hash()
 		c, ok = p.clients[i]
 	)
-	if p.lock.RUnlock(); !ok {
+	if p.lock.RUnlock(); ok && c.ID != n.Device {
+		// The 32bit hash matches the client entry of another device: never use it.
+		if ok = false; n.ID == SvHello {
+			return nil, false, ErrMalformedPacket
+		}
+	}
+	if !ok {
 		if n.ID != SvHello {
 			if cout.Enabled {
 				p.log.Warning("[%s:%s] %s: Received a non-hello Packet from a unregistered client!", p.prefix(), n.Device, a)
@@ -554,7 +560,13 @@ func (p *Proxy) talkSub(a string, n *com.Packet, o bool) (connHost, uint32, *com
 		i     = n.Device.Hash()
 		c, ok = p.clients[i]
 	)
-	if p.lock.RUnlock(); !ok {
+	if p.lock.RUnlock(); ok && c.ID != n.Device {
+		// The 32bit hash matches the client entry of another device: never use it.
+		if ok = false; n.ID == SvHello {
+			return nil, 0, nil, ErrMalformedPacket
+		}
+	}
+	if !ok {
 		if n.ID != SvHello {
 			if cout.Enabled {
 				p.log.Warning("[%s:%s/M] %s: Received a non-hello Packet from a unregistered client!", p.prefix(), n.Device, a)
